@@ -85,6 +85,27 @@ DEFS = [
     enum("ETagRaw", [variant("r#type"), variant("r#Move", [field("r#in", U8)])], tag="op"),
     enum("EOne", [variant("Only", [field("v", ("vec", U8))])], tag="tag"),
     struct("SWithEnums", [field("e", ("ref", "EUnit")), field("t", ("ref", "ETag")), field("o", ("opt", ("ref", "EUnitLower")))]),
+    # ---- user functions: from / try_from / map / validate / custom missing / custom unknown / field error type.
+    # These fix `error = RecErr` so that the functions can return the harness' FnErr.
+    struct("FFrom", [field("a", U8, frm={"kind": "from", "ty": U8, "ref": False}), field("b", STR, frm={"kind": "from", "ty": STR, "ref": True}),
+                     field("c", BOOL)], error="RecErr"),
+    struct("FTry", [field("a", U8, frm={"kind": "try", "ty": U8, "ref": False}), field("b", BOOL),
+                    field("c", STR, frm={"kind": "try", "ty": STR, "ref": True}, default=("expr", "String::from(\"dflt\")", rv("str", s="dflt")))],
+           error="RecErr"),
+    struct("FTryF", [field("x", U8, frm={"kind": "try", "ty": U8, "ref": False}, error="RecErr2"), field("y", U8, error="RecErr2"),
+                     field("z", ("vec", U8), error="RecErr2")], error="RecErr", deny="default"),
+    struct("FMap", [field("a", U8, mapfn=True), field("b", STR, mapfn=True, default=("expr", "String::from(\"d\")", rv("str", s="d"))),
+                    field("c", U8, skip=True, mapfn=True), field("d", BOOL)], error="RecErr"),
+    struct("FValidate", [field("a", U8), field("b", U8, default="trait")], error="RecErr", validate=True),
+    struct("FMissing", [field("my_a", U8, missing_fn=True), field("b", BOOL, missing_fn=True, rename="bee"), field("c", U8)], error="RecErr", rename_all="camelCase"),
+    struct("FDenyFn", [field("a", U8), field("sk", U8, skip=True), field("b_c", BOOL, default="trait")], error="RecErr", deny="fn", rename_all="camelCase"),
+    struct("FAll", [field("a", U8, frm={"kind": "try", "ty": U8, "ref": False}, mapfn=False), field("b", U8, mapfn=True, default=("expr", "3", num_rv(3))),
+                    field("c", STR, missing_fn=True)], error="RecErr", deny="fn", validate=True),
+    struct("CFrom", [], error="RecErr", cfrom={"kind": "from", "ty": ("vec", U8), "ref": False}),
+    struct("CTry", [], error="RecErr", cfrom={"kind": "try", "ty": U8, "ref": True}, validate=True),
+    enum("EValidate", [variant("A"), variant("B", [field("x", U8)])], tag="t", error="RecErr", validate=True),
+    enum("EUnitValidate", [variant("A"), variant("B")], error="RecErr", validate=True),
+    struct("FNest", [field("inner", ("ref", "FTry")), field("list", ("vec", ("ref", "FValidate"))), field("cf", ("ref", "CTry"))], error="RecErr"),
 ]
 
 # entries: root type expressions
@@ -107,4 +128,6 @@ ENTRIES = [
     ("ref", "ETagCollide"), ("ref", "ETagRaw"), ("ref", "EOne"), ("ref", "SWithEnums"),
     ("vec", ("ref", "ETag")), ("hmap", "String", ("ref", "SPlain")), ("opt", ("ref", "EUnit")), ("tup", [("ref", "SPlain"), ("ref", "EUnit")]),
     ("vec", ("ref", "SDeny")),
+    ("ref", "FFrom"), ("ref", "FTry"), ("ref", "FTryF"), ("ref", "FMap"), ("ref", "FValidate"), ("ref", "FMissing"), ("ref", "FDenyFn"), ("ref", "FAll"),
+    ("ref", "CFrom"), ("ref", "CTry"), ("ref", "EValidate"), ("ref", "EUnitValidate"), ("ref", "FNest"), ("vec", ("ref", "FTry")),
 ]
